@@ -270,6 +270,10 @@ fn any_error_kind() -> ErrorKind {
 pub(crate) struct AnyReader {
     pub stream: [u8; 8],
     pub pos: usize,
+    /// 0: anything may happen at any call; 1: never fails (fragments and interruptions only);
+    /// 2: delivers fragments until `fail_at` bytes have been delivered, then fails (no interruptions)
+    pub mode: u8,
+    pub fail_at: usize,
     pub max_calls: u8,
     pub calls: u8,
     pub failed: bool,
@@ -279,7 +283,7 @@ pub(crate) struct AnyReader {
 
 impl AnyReader {
     pub(crate) fn new() -> Self {
-        AnyReader { stream: kani::any(), pos: 0, max_calls: MAX_IO_CALLS, calls: 0, failed: false, interrupted: 0, fragments: 0 }
+        AnyReader { stream: kani::any(), pos: 0, mode: 0, fail_at: 0, max_calls: MAX_IO_CALLS, calls: 0, failed: false, interrupted: 0, fragments: 0 }
     }
 }
 
@@ -288,20 +292,31 @@ impl Read for AnyReader {
         self.calls += 1;
         kani::assume(self.calls <= self.max_calls);
         let choice: u8 = kani::any();
-        if choice == 0 {
-            self.interrupted += 1;
-            return Err(ErrorKind::Interrupted.into());
-        }
-        if choice == 1 {
-            self.failed = true;
-            return Err(any_error_kind().into());
-        }
-        if choice == 2 {
-            self.failed = true;
-            return Ok(0);
+        if self.mode == 2 {
+            if self.pos == self.fail_at {
+                self.failed = true;
+                if choice == 2 {
+                    return Ok(0);
+                }
+                return Err(any_error_kind().into());
+            }
+        } else {
+            if choice == 0 {
+                self.interrupted += 1;
+                return Err(ErrorKind::Interrupted.into());
+            }
+            if self.mode == 0 && choice == 1 {
+                self.failed = true;
+                return Err(any_error_kind().into());
+            }
+            if self.mode == 0 && choice == 2 {
+                self.failed = true;
+                return Ok(0);
+            }
         }
         let k: usize = kani::any();
         kani::assume(k >= 1 && k <= buf.len() && k <= 8 - self.pos);
+        kani::assume(self.mode != 2 || k <= self.fail_at - self.pos);
         let mut i = 0;
         while i < k {
             buf[i] = self.stream[self.pos + i];
